@@ -84,7 +84,8 @@ func c21Run(e *Env, p *c21Plan) {
 		byID[p.Reqs[i].ID] = &p.Reqs[i]
 	}
 	var servers []*FakeServer
-	for host, ip := range ips {
+	for _, host := range []string{"h1.test", "h2.test"} { // fixed order: Go map iteration is random
+		ip := ips[host]
 		for _, isTLS := range []bool{false, true} {
 			host, isTLS := host, isTLS
 			port := 80
